@@ -339,6 +339,39 @@ func Run(c *vk.Ctx) {
 			idx++
 		}
 	}
+	// G: a call graph with a diamond (c has two callers), a heavy and a negligible branch (default trimming
+	// removes d), a label and a negative sample; every pair of report-shaping options x every command
+	{
+		ln := func(fn string, line int64) ap.Line { return ap.Line{Func: fn, Sys: fn + "_sys", File: "/src/" + fn + ".go", Line: line, Start: 1} }
+		L := func(addr uint64, l ap.Line) ap.Loc { return ap.Loc{Map: 0, Addr: addr, Lines: []ap.Line{l}} }
+		mainF, fa, fb, fc, fd := ln("main", 1), ln("a", 2), ln("b", 3), ln("c", 4), ln("d", 5)
+		g := &ap.AP{Types: []ap.VT{{Type: "n", Unit: "count"}, {Type: "t", Unit: "nanoseconds"}}, Maps: enum.Maps2, PeriodType: &ap.VT{Type: "t", Unit: "nanoseconds"}, Period: 10}
+		g.Stacks = []ap.Stack{
+			{Locs: []ap.Loc{L(0x1010, mainF), L(0x1020, fa), L(0x1040, fc)}, Values: []int64{5, 500}, Labels: map[string][]string{"k": {"v"}}},
+			{Locs: []ap.Loc{L(0x1010, mainF), L(0x1030, fb), L(0x1040, fc)}, Values: []int64{4, 400}, Labels: map[string][]string{"k": {"w"}}},
+			{Locs: []ap.Loc{L(0x1010, mainF), L(0x1050, fd)}, Values: []int64{1, 1}},
+			{Locs: []ap.Loc{L(0x1010, mainF), L(0x1030, fb)}, Values: []int64{1, -30}},
+		}
+		gdata := drive.Encode(ap.Concretize(g, ap.Opts{}))
+		shaping := []string{"call_tree", "mean", "nodecount=1", "nodecount=3", "nodefraction=0.3", "edgefraction=0.3", "noinlines", "lines", "files", "addresses",
+			"cum", "drop_negative", "relative_percentages", "trim=false", "compact_labels", "sample_index=0", "tagroot=k", "tagleaf=k", "focus=c", "hide=a", "show_from=b", "ignore=d"}
+		for i := -1; i < len(shaping); i++ {
+			for j := i + 1; j < len(shaping); j++ {
+				var opts []string
+				if i >= 0 {
+					opts = append(opts, shaping[i])
+				}
+				opts = append(opts, shaping[j])
+				for _, cmd := range commands {
+					if c.Mine(idx) {
+						runOne(c, witness{Family: "G", Profile: "diamond", Command: cmd, Options: opts}, gdata, cmd, opts, nil, "option-pair/"+cmd[0])
+						c.Nontrivial("G|" + strings.Join(opts, ",") + strings.Join(cmd, ","))
+					}
+					idx++
+				}
+			}
+		}
+	}
 	// A: odd profiles x commands
 	for _, o := range od {
 		data, ok := encode(o)
